@@ -28,21 +28,14 @@ def hReduce (j : Json) : R Json := do
     | .error e => return Json.mkObj [("mem", err e)]
     | .ok g =>
       let mem := Json.mkObj [("shape", ofNatList g.shape), ("groups", ofNatListList g.flat)]
-      let posSliced := dims.any (fun d => plabs.contains d)
-      let specSliced := dims.any (fun d => slabs.contains d)
       let posK : AncK := { labels := plabs, units := punits, inds := transposeM pos, vals := Usid.UV.transposeI posV }
       let specK : AncK := { labels := slabs, units := sunits, inds := spec, vals := specV }
-      let newPos := if posSliced then writeReducedAnc posK (dims.filter (fun d => plabs.contains d)) else posK
-      let newSpec := if specSliced then writeReducedAnc specK (dims.filter (fun d => slabs.contains d)) else specK
-      -- flatten the groups array (each cell holds its group) with the new index matrices
-      let file := match reshapeFromNDimsBoth g (transposeM newPos.inds) newSpec.inds with
+      let file := match reduceToFile nd labels posK specK dims with
         | .error e => err e
-        | .ok two =>
-          -- link_as_main validates that the flattened result is two dimensional and matches the ancillaries
-          if two.shape.length != 2 || two.shape.getD 0 0 != (transposeM newPos.inds).length ||
-              two.shape.getD 1 0 != ncols newSpec.inds then err .valueErr else
-          ok (Json.mkObj [("shape", ofNatList two.shape), ("groups", ofNatListList two.flat),
-            ("pos", ancJson newPos), ("spec", ancJson newSpec), ("pos_reused", !posSliced), ("spec_reused", !specSliced)])
+        | .ok res =>
+          ok (Json.mkObj [("shape", ofNatList res.data.shape), ("groups", ofNatListList res.data.flat),
+            ("pos", ancJson res.pos), ("spec", ancJson res.spec), ("pos_reused", res.posReused),
+            ("spec_reused", res.specReused)])
       return Json.mkObj [("mem", ok mem), ("file", file)]
 
 end Usid.Driver
